@@ -138,6 +138,13 @@ Line ==
                                /\ e.lclosed = lClosed[L]
           /\ UNCHANGED <<vars, script, appCl, pend>>
      [] e.k = "census" -> e.n = 0 /\ UNCHANGED <<vars, script, appCl, pend>>
+     \* the reconnect times changed while the dialer is at work (accepted: both values are valid); from here on the
+     \* bounds on the delay are those of the option values in force when it was computed (OptChanged)
+     [] e.k = "setopt" ->
+          /\ AtNow /\ e.r1 = "ok" /\ e.r2 = "ok"
+          /\ SetReconnOpt(D, e.minT, e.maxT)
+          /\ appCl' = appCl \cup {"optchg"}
+          /\ UNCHANGED <<script, pend>>
      [] e.k = "mkpipe" ->
           /\ script' = [script EXCEPT ![e.p] = e.script]
           /\ UNCHANGED <<vars, appCl, pend>>
@@ -266,10 +273,12 @@ TListeners == {"l1"}
 TNull == "NULL"
 TInitOpt == ("d1" :> [min |-> 1, max |-> 0, asynch |-> FALSE])
 
+\* (appCl also carries the mark that the reconnect options were changed in this scenario)
+OptChanged == "optchg" \in appCl
 \* Properties monitored on every explaining behaviour
 TInv ==
   /\ HookLanguage /\ DetachedOnlyIfAdmitted /\ AttachedOnlyIfAdmitted /\ RejectedGetNeither
-  /\ ProtoOnceEach /\ IdHeld /\ ListedHaveIds /\ DelayBounds /\ Spacing /\ Reconnects
+  /\ ProtoOnceEach /\ IdHeld /\ ListedHaveIds /\ (OptChanged \/ DelayBounds) /\ Spacing /\ Reconnects
 
 \* States on which a property fails are pruned, so "accepted" means: some
 \* behaviour of Core explains the whole log and satisfies the properties
